@@ -226,6 +226,12 @@ def _chain(rc: RuleCtx, name: str, pop_signs):
     env.update(bound)
     fr = Frame(ev, fi, 0)
     fr.block(fi.node.body[:k], env, TRUE)
+    # an exit in front of the scan is the scan skipped: with 3 points the middle one still has to be tested against the chord
+    from .common import early_exits_bounded
+    anf.declare_integer(sym("n"))
+    early_exits_bounded(rc, "H3", fi, fr.returns, sym("n"), 2, f"{fi.qualname}")
+    from .common import account_exits
+    account_exits(fi)
     seeds = [(nme, v) for nme, v in env.items() if isinstance(v, Vec) and v.kind == "list"]
     if len(seeds) != 1:
         raise AnalysisError(f"{fi.qualname}: cannot identify the chain stack")
